@@ -20,6 +20,7 @@ class AbsInt:
     def __init__(self, idx):
         self.idx = idx
         self._fn_memo = {}
+        self._consts = {}  # id(function node) -> {parameter: literal} for the call being evaluated
         self._stack = set()
 
     # ---------------------------------------------------------------- hooks
@@ -191,6 +192,52 @@ class AbsInt:
 
     # ---------------------------------------------------------------- branch exclusion
     @staticmethod
+    def _const_test(test, consts):
+        """truth value of an `if` test under known literal parameters (`flag`, `not flag`, `flag is None`, `flag is not None`), or None"""
+        if isinstance(test, ast.Name) and test.id in consts:
+            return bool(consts[test.id])
+        if isinstance(test, ast.UnaryOp) and isinstance(test.op, ast.Not):
+            v = AbsInt._const_test(test.operand, consts)
+            return None if v is None else not v
+        if isinstance(test, ast.Compare) and len(test.ops) == 1 and isinstance(test.left, ast.Name) and test.left.id in consts \
+                and isinstance(test.comparators[0], ast.Constant):
+            c, k = consts[test.left.id], test.comparators[0].value
+            if isinstance(test.ops[0], ast.Is):
+                return c is k
+            if isinstance(test.ops[0], ast.IsNot):
+                return c is not k
+            if isinstance(test.ops[0], ast.Eq) and isinstance(k, (bool, type(None))):
+                return c == k
+            if isinstance(test.ops[0], ast.NotEq) and isinstance(k, (bool, type(None))):
+                return c != k
+        return None
+
+    def _dead_under(self, node, root, consts):
+        """does `node` sit on the branch of an `if` that the literal parameters exclude (or after an always-exiting live branch)?"""
+        if not consts:
+            return False
+        child, cur = node, getattr(node, "_parent", None)
+        while cur is not None and child is not root:
+            if isinstance(cur, ast.If):
+                v = self._const_test(cur.test, consts)
+                if v is not None:
+                    if (any(child is x for x in cur.body) and not v) or (any(child is x for x in cur.orelse) and v):
+                        return True
+            if isinstance(cur, (ast.FunctionDef, ast.AsyncFunctionDef, ast.Lambda)) and cur is not root:
+                return False
+            # statements after an `if` whose live branch always exits are dead as well
+            for fld in ("body", "orelse"):
+                blk = getattr(cur, fld, None)
+                if isinstance(blk, list) and any(child is x for x in blk):
+                    for prev in blk[:next(k for k, x in enumerate(blk) if x is child)]:
+                        if isinstance(prev, ast.If):
+                            v = self._const_test(prev.test, consts)
+                            if v is not None and self._terminates(prev.body if v else prev.orelse):
+                                return True
+            child, cur = cur, getattr(cur, "_parent", None)
+        return False
+
+    @staticmethod
     def _branch_path(node, root):
         """[(If node, 'body' | 'orelse')] from the function body down to node; None when a loop encloses one of those Ifs
         (a binding of one iteration reaches the other branch in the next)"""
@@ -230,11 +277,14 @@ class AbsInt:
         asg = df.assignments(f.node, into_nested=False).get(name, [])
         if not asg:
             return frozenset()
+        consts = self._consts.get(id(f.node))
+        out = set()
+        if consts:
+            out |= {id(st) for _v, _p, st in asg if self._dead_under(st, f.node, consts)}
         up = self._branch_path(use, f.node)
         if up is None:
-            return frozenset()
+            return frozenset(out)
         use_at = {id(n): b for n, b in up}
-        out = set()
         for _v, _p, st in asg:
             sp = self._branch_path(st, f.node)
             if not sp:
@@ -477,19 +527,45 @@ class AbsInt:
         for p, d in df.param_defaults(callee.node).items():
             if p not in env:
                 env[p] = self.eval_in(callee, d, {}, ctx.depth + 1)
-        key = (id(callee.node), tuple(sorted((k, repr(v)) for k, v in env.items())))
+        # literal flags at the call site (`helper(.., hermitian=False)`, also through the callee's defaults): the callee is evaluated for
+        # that value of the flag -- exits and bindings on the branch it excludes are not part of this call
+        consts = {}
+        i = 0
+        for a_node in call.args:
+            if isinstance(a_node, ast.Starred):
+                break
+            if i < len(params) and isinstance(a_node, ast.Constant) and isinstance(a_node.value, (bool, type(None))):
+                consts[params[i]] = a_node.value
+            i += 1
+        for kw in call.keywords:
+            if kw.arg is not None and isinstance(kw.value, ast.Constant) and isinstance(kw.value.value, (bool, type(None))):
+                consts[kw.arg] = kw.value.value
+        bound_here = {params[j] for j in range(min(i, len(params)))} | {kw.arg for kw in call.keywords if kw.arg}
+        for p, d in df.param_defaults(callee.node).items():
+            if p not in bound_here and isinstance(d, ast.Constant) and isinstance(d.value, (bool, type(None))):
+                consts[p] = d.value
+        stored = {n.id for n in df.body_nodes(callee.node, into_nested=False) if isinstance(n, ast.Name) and isinstance(n.ctx, ast.Store)}
+        consts = {p: v for p, v in consts.items() if p not in stored}
+        key = (id(callee.node), tuple(sorted((k, repr(v)) for k, v in env.items())), tuple(sorted((k, repr(v)) for k, v in consts.items())))
         if key in self._fn_memo:
             return self._fn_memo[key]
         if key in self._stack:
             return self.unknown(f"recursive {callee.short}")
         self._stack.add(key)
+        saved = self._consts.get(id(callee.node))
+        self._consts[id(callee.node)] = consts
         try:
-            rets = [r.value for r in df.returns(callee.node) if r.value is not None]
-            if not rets:
+            rets = [r for r in df.returns(callee.node) if r.value is not None]
+            live = [r.value for r in rets if not self._dead_under(getattr(r, "_origin", r), callee.node, consts)]
+            if not live:
                 out = self.unknown("no return")
             else:
-                out = self.join([self.eval_in(callee, r, env, ctx.depth + 1) for r in rets])
+                out = self.join([self.eval_in(callee, r, env, ctx.depth + 1) for r in live])
         finally:
             self._stack.discard(key)
+            if saved is None:
+                self._consts.pop(id(callee.node), None)
+            else:
+                self._consts[id(callee.node)] = saved
         self._fn_memo[key] = out
         return out
